@@ -183,7 +183,9 @@ def parseOp (ts : List String) : P Op :=
   | ["reagent_distribution", sl, ss, se, dl, ds, de, v, dr, md, ex, lc, dir, sid, stp, did, dtp] => do
     pure (.reagentDistribution { srcLabel := ← pStr sl, srcStart := ← pIntArg ss, srcEnd := ← pIntArg se,
                                  dstLabel := ← pStr dl, dstStart := ← pIntArg ds, dstEnd := ← pIntArg de, vol := ← pPyNum v,
-                                 ditiReuse := ← pInt dr, multiDisp := ← pInt md, exclude := ← pList "," pInt ex,
+                                 ditiReuse := ← pInt dr, multiDisp := ← pInt md,
+                                 exclude := ← pList "," pInt (",".intercalate ((ex.splitOn ",").filter (· ≠ "b"))),
+                                 excludeBad := (ex.splitOn ",").contains "b",
                                  liquidClass := ← pStr lc, direction := ← pStr dir, srcRackId := ← pStr sid,
                                  srcRackType := ← pStr stp, dstRackId := ← pStr did, dstRackType := ← pStr dtp })
   | ["evo_aspirate", l, ws, grid, site, tips, v, lc, arm, lb] => do
